@@ -5,7 +5,12 @@ import (
 	"errors"
 	"fmt"
 	"math/rand"
+	"os"
+	"os/exec"
+	"path/filepath"
+	"regexp"
 	"runtime"
+	"strconv"
 	"strings"
 	"time"
 
@@ -27,6 +32,9 @@ type hostileModel struct {
 	done2   int
 	returns int // PUBLISH packets to be returned
 	acksOut int // acknowledgements the client owes
+	// exactly-once reception cycles in progress: the identifier was returned and
+	// no PUBREL ended the cycle yet; a PUBLISH with it is a retransmission
+	inCycle map[uint16]bool
 }
 
 type verdict int
@@ -96,6 +104,18 @@ func (m *hostileModel) classify(b []byte) (verdict, int, string) {
 		if tl == 0 || wire.ValidString(string(body[2:2+tl])) != nil || qos == 0 && flags&8 != 0 || strings.ContainsAny(string(body[2:2+tl]), "#+") {
 			return vGray, n, "PUBLISH topic or flags outside the specification, tolerated or not"
 		}
+		if qos == 2 {
+			pid := uint16(body[2+tl])<<8 | uint16(body[2+tl+1])
+			if m.inCycle == nil {
+				m.inCycle = map[uint16]bool{}
+			}
+			if m.inCycle[pid] {
+				// ownership was taken when ReadSlices got invoked again: answered, not returned
+				m.acksOut++
+				return vOK, n, "PUBLISH (retransmission within its cycle)"
+			}
+			m.inCycle[pid] = true
+		}
 		m.returns++
 		if qos != 0 {
 			m.acksOut++
@@ -147,6 +167,7 @@ func (m *hostileModel) classify(b []byte) (verdict, int, string) {
 		if grayFlags {
 			return vGray, n, "reserved flags"
 		}
+		delete(m.inCycle, id())
 		m.acksOut++
 		return vOK, n, "PUBREL"
 	case wire.SUBACK:
@@ -657,7 +678,13 @@ func init() {
 		},
 		ChunkSize:   10,
 		Rule:        "inputs come from four generators, each used as handshake reply and as post-handshake stream against clients with 0-3 at-least-once and 0-3 exactly-once transfers outstanding plus optional pending Subscribe, Unsubscribe and Ping: (directed) 47 hand-listed offences, one per violation the statement names, placed after a valid prefix of 0-6 packets, plus 9 stage-dependent ones (an acknowledgement that would be right one stage earlier or later, after a prefix that brings the transfers to that stage); (mutation) every single-field mutation of a generated valid stream: each byte of each fixed header set to 0, +-1, 0xff, high bit flipped, identifiers set to zero, foreign space and neighbour, truncation at every byte (broker then stays silent); (soup) PRNG bytes and valid packets in PRNG order; (handshake) all 256 return codes and flag bytes, truncated and foreign first packets. A reference classifier written from the specification (over the model of what is outstanding) gives the first offending packet; gray-zone inputs (reserved flag bits on non-PUBLISH packets, topic contents, DUP on QoS 0) get only the unconditional monitors. Oracle: no panic (child-process monitor); packets before the offence take effect (returned messages, completed transfers equal the reference); at the offence ReadSlices errs, the connection is closed by the client and the next ReadSlices dials again; completions and record deletions need their in-order acknowledgement bytes in the input; messages beyond the read buffer that stop short are read or skipped by the application; a Read that blocks inside a packet must have a deadline armed (the connection expires it instead of waiting); bytes allocated stay below the largest announced packet + 8 MiB. Non-trivial: input with an offence reached by the parser; distinct by (generator, offence kind, outstanding state, handshake or stream).",
-		Assumptions: []string{"native coverage-guided fuzzing and the asan pass are not part of this check (cut, see DESIGN section 6)", "BigMessage.ReadAll is never called on messages above 1 MiB"},
+		Assumptions: []string{"the thorough tier adds a 120 s session of Go's coverage-guided fuzzing on the same oracle (props/fuzz_test.go); an asan pass is not part of this check", "BigMessage.ReadAll is never called on messages above 1 MiB"},
+		Extra: func(tier string, seed int64) *run.CaseResult {
+			if tier != "thorough" {
+				return nil
+			}
+			return fuzzSession("FuzzHostile", 120)
+		},
 		Run: func(c *run.Ctx) {
 			r := c.Rng
 			hs := hostileSetup{n1: r.Intn(4), n2: r.Intn(4)}
@@ -814,6 +841,61 @@ func init() {
 			c.Sample(map[string]any{"generator": []string{"directed", "mutation", "soup", "handshake"}[c.Case%4], "outstanding": fmt.Sprintf("%+v", hs), "inputs": inputs, "offences": offences})
 		},
 	})
+}
+
+var fuzzExecsRE = regexp.MustCompile(`execs: (\d+)`)
+var fuzzTotalRE = regexp.MustCompile(`\(total: (\d+)\)`)
+var fuzzFileRE = regexp.MustCompile(`Failing input written to (\S+)`)
+
+// fuzzSession runs Go's coverage-guided fuzzing engine on a target of this
+// package for the given number of seconds and reports its outcome like a case.
+func fuzzSession(target string, seconds int) *run.CaseResult {
+	res := &run.CaseResult{Counts: map[string]int{}}
+	dir := filepath.Join(run.Root, "harness")
+	args := []string{"test"}
+	if mf := os.Getenv("VERIF_MODFILE"); mf != "" {
+		args = append(args, "-modfile="+mf)
+	}
+	args = append(args, "-tags", "verif", "-run", "^$", "-fuzz", "^"+target+"$", "-fuzztime", fmt.Sprintf("%ds", seconds), "./props")
+	cmd := exec.Command("go", args...)
+	cmd.Dir = dir
+	out, err := cmd.CombinedOutput()
+	text := string(out)
+	if m := fuzzExecsRE.FindAllStringSubmatch(text, -1); len(m) > 0 {
+		n, _ := strconv.Atoi(m[len(m)-1][1])
+		res.Counts["fuzz_executions"] = n
+	}
+	if m := fuzzTotalRE.FindAllStringSubmatch(text, -1); len(m) > 0 {
+		n, _ := strconv.Atoi(m[len(m)-1][1])
+		res.Counts["fuzz_corpus_entries_with_new_coverage"] = n
+	}
+	res.Counts["fuzz_seconds"] = seconds
+	switch {
+	case err == nil:
+		res.Shapes = []string{"fuzz|" + target}
+		res.Samples = []any{map[string]any{"generator": "coverage-guided fuzzing (go test -fuzz)", "target": target, "executions": res.Counts["fuzz_executions"], "inputs_with_new_coverage": res.Counts["fuzz_corpus_entries_with_new_coverage"]}}
+	case strings.Contains(text, "Failing input written to"):
+		file := ""
+		if m := fuzzFileRE.FindStringSubmatch(text); m != nil {
+			file = filepath.Join(dir, "props", m[1])
+		}
+		content, _ := os.ReadFile(file)
+		msg := "the fuzzing engine found an input that fails the oracle"
+		sig := "fuzz-finding"
+		for _, l := range strings.Split(text, "\n") {
+			if i := strings.Index(l, "fuzz_test.go:"); i >= 0 {
+				msg = strings.TrimSpace(l[i:])
+				if a, b := strings.Index(msg, "["), strings.Index(msg, "]"); a >= 0 && b > a {
+					sig = msg[a+1 : b]
+				}
+				break
+			}
+		}
+		res.Violations = []run.Violation{{Sig: sig, Msg: msg, Detail: map[string]any{"fuzz_input_file": file, "fuzz_input": string(content), "rerun": "cd /verif/harness && go test -tags verif -run=" + target + "/" + filepath.Base(file) + " ./props"}}}
+	default:
+		res.Inconclusive = []string{"fuzzing session did not run: " + firstLine(strings.TrimSpace(text))}
+	}
+	return res
 }
 
 // renameIDs swaps the placeholder identifiers of the pending Subscribe and
